@@ -1,10 +1,13 @@
 SPECIFICATION Spec
 CONSTANTS N = 3 UCap = 1 WakeAll = TRUE WithContent = TRUE
+          Views = {"own"} ReduceKey = TRUE WireStops = FALSE WireLen = 0
 INVARIANT TypeOK
+INVARIANT KeyIsPublic
 INVARIANT OnlyValidConnected
 INVARIANT Complete
 INVARIANT NeverBad
 INVARIANT WaitingAreDisjoint
 INVARIANT ContentBound
 INVARIANT PublicRoundTrip
+INVARIANT PublicReloadsClean
 INVARIANT PathRoundTrip
